@@ -145,6 +145,9 @@ func runDistScenario(c *fw.Case, prop string) {
 		c.Describe("no-valid-config")
 		return
 	}
+	if c.Index%8 == 3 || (prop == "C01" && c.Index%16 == 15) {
+		e.occupiedModule = []string{disttypes.GreenEnergyBoosterCollector, disttypes.GovernanceBoosterCollector}[c.R.Intn(2)]
+	}
 	if err := e.start(cloneSubs(sds), nil); err != nil {
 		if p := asPanic(err); p != nil {
 			c.ViolateD(prop+"/initchain-panic", p.Stack, "InitChain panicked for a valid configuration: %s", short(p.Value, 300))
@@ -176,7 +179,7 @@ func runDistScenario(c *fw.Case, prop string) {
 			}
 		}
 		twin = newDistKeys()
-		twin.wholeAmounts, twin.tinyWhole = e.wholeAmounts, e.tinyWhole
+		twin.wholeAmounts, twin.tinyWhole, twin.occupiedModule = e.wholeAmounts, e.tinyWhole, e.occupiedModule
 		if err := twin.start(perm, nil); err != nil {
 			c.Inconclusive("twin start: %v", err)
 			return
